@@ -243,6 +243,14 @@ var templates = []struct {
 	{"ok", "datetime(n1, \"s\", \"RFC3339\")\nprobe(\"d\", n1)\nsql_cover(_)\nprobe(\"q\", message)"},
 	{"ok", "strfmt(s, \"%d|%s\", \"x\", 2)\nprobe(\"s\", s)\nxml(_, \"/a/b\", v)\nprobe(\"v\", v)"},
 	{"ok", "cast(n1, \"int\")\ncast(message, \"bool\")\nprobe(\"c\", n1, message)"},
+	// keys that collide: a rename onto an existing field / tag, a key dropped and made again with another type or kind;
+	// and a reader that uses several keys of different types and kinds in type-sensitive ways
+	{"ok", "add_key(a1, 1)\nadd_key(b1, \"s\")\nrename(b1, a1)\nprobe(\"r\", a1, b1)"},
+	{"ok", "set_tag(tg1, \"t\")\nadd_key(f1, 2)\nrename(tg1, f1)\nprobe(\"r\", tg1, f1)\nadd_key(f2, 2.5)\nrename(f2, tg1)\nprobe(\"r2\", tg1, f2)"},
+	{"ok", "rename(message, n1)\nprobe(\"m\", message, n1)\nrename(n1, message)\nprobe(\"m2\", message, n1)"},
+	{"ok", "add_key(i1, 1)\nadd_key(s1, \"x\")\nadd_key(fl, 2.5)\nadd_key(bo, true)\nset_tag(tg1, \"t\")\nprobe(\"types\", i1 + 1, s1 + \"y\", fl * 2, tg1 + \"z\", bo && true)\ncast(i1, \"str\")\nprobe(\"after\", i1 + \"s\")"},
+	{"ok", "add_key(k9, 1)\ndrop_key(k9)\nadd_key(k9, \"s\")\nset_tag(k9)\nadd_key(k9, 2)\nprobe(\"k9\", k9)\ndrop_key(k9)\nprobe(\"gone\", k9)"},
+	{"ok", "probe(\"in\", message + \"!\", n1, t1)\nadd_key(z1, 1)\nadd_key(z2, \"two\")\nprobe(\"z\", z1 + 1, z2 + \"2\")"},
 }
 
 var badParses = []string{"b `if`", "x '''abc'''", "a `k`\nb `q`", "f(a) \"\"\"m\"\"\"", "1 `x y`", "a = 1 `b`", "x = '''t''' '''u'''",
